@@ -43,7 +43,24 @@ func (vhCodec) Decode(data []byte) (any, error) {
 // lengths, at 2*(max+1) runs instead of (max+1)^fields.
 var vhStrBase, vhStrStep, vhStrN = -1, 0, 0
 
+// vhBigLen >= 0: the first string / byte slice of the run gets exactly this
+// length (payload sizes around the writer's buffer-growth boundaries), all
+// later ones are empty.
+var vhBigLen = -1
+
+// vhFewChoices: the large-payload job fixes the reference-shaped choices (they
+// are covered by the small-length job) so that only the length varies.
+var vhFewChoices = false
+
 func vhStr(max int) string {
+	if vhBigLen >= 0 {
+		n := 0
+		if vhStrN == 0 {
+			n = vhBigLen
+		}
+		vhStrN++
+		return vrtString(n)
+	}
 	if vhStrBase < 0 {
 		vhStrBase = vrtChoose(max + 1)
 		vhStrStep = vrtChoose(2)
@@ -54,6 +71,14 @@ func vhStr(max int) string {
 }
 
 func vhBytes(max int) []byte {
+	if vhBigLen >= 0 {
+		n := 0
+		if vhStrN == 0 {
+			n = vhBigLen
+		}
+		vhStrN++
+		return vrtBytes(n)
+	}
 	if vhStrBase < 0 {
 		vhStrBase = vrtChoose(max + 1)
 		vhStrStep = vrtChoose(2)
@@ -65,6 +90,9 @@ func vhBytes(max int) []byte {
 
 // vhRef returns nil or a reference with arbitrary (symbolic) address and path.
 func vhRef(maxlen int) *Ref {
+	if vhFewChoices {
+		return &Ref{address: "h:1", path: "/a"}
+	}
 	if vrtChoose(2) == 0 {
 		return nil
 	}
@@ -75,6 +103,10 @@ func vhRef(maxlen int) *Ref {
 // (NewRef-normalised address and path): the value space of an ActorRef-typed
 // message field.
 func vhValidRef() vivid.ActorRef {
+	if vhFewChoices {
+		r, _ := ParseRef("127.0.0.1:8080/user/a/b")
+		return r
+	}
 	cands := []string{"", "localhost/", "localhost/user/a", "127.0.0.1:8080/user/a/b", "node-1:9000/@remoting"}
 	k := vrtChoose(len(cands))
 	if k == 0 {
@@ -127,9 +159,21 @@ func vhPayload(maxlen int) (vivid.Message, func(got vivid.Message, name string))
 // VH_C12_envelope: encode then decode an envelope carrying an arbitrary value
 // of the message type selected by param "type"; flag, addresses, paths and every
 // field must survive.
+// Types with a variable-size field, for the large-payload job.
+var vhC12Large = []int{1, 3, 5, 6, 12}
+
 func VH_C12_envelope() {
 	typ := vrtParam("type", 0)
 	maxlen := vrtParam("maxlen", 2)
+	if sel := vrtParam("sel", -1); sel >= 0 {
+		// large-payload variant: one field of the message has a length L chosen
+		// (symbolically) from [biglo, bighi]; contents symbolic
+		typ = vhC12Large[sel]
+		lo, hi := vrtParam("biglo", 200), vrtParam("bighi", 270)
+		vhBigLen = lo + vrtChoose(hi-lo+1)
+		vhFewChoices = true
+		vrtReach("large-payload")
+	}
 	var msg vivid.Message
 	var check func(got vivid.Message)
 	switch vhC12Names[typ] {
@@ -246,6 +290,11 @@ func VH_C12_envelope() {
 				vrtAssert(g.Payload[i] == u.Payload[i], "roundtrip-equal")
 			}
 		}
+	}
+	if vhBigLen >= 0 {
+		// envelope addresses stay small (real addresses are host:port)
+		vhBigLen = -1
+		vhStrBase, vhStrStep = 0, 1
 	}
 	system := vrtBool()
 	sender, receiver := vhRef(maxlen), vhRef(maxlen)
